@@ -34,6 +34,16 @@ Three families of cases (field 'fam'):
          the handshake that depends on an extension (AUTH and its mechanism, MAIL SIZE=/AUTH= parameters) uses
          only what the server offered inside TLS; the AUTH exchange decodes to the configured credentials.
 
+ offer   (b) the STARTTLS offer over HISTORIES: after the handshake (or on a tls_immediately session) a seeded
+         command sequence of length 1..5 over {EHLO, HELO, RSET, NOOP, full transaction, refused RCPT, unknown
+         command, AUTH ok / refused by the application, STARTTLS} runs over TLS; after EVERY EHLO reply STARTTLS
+         must not be among the offered extensions and nothing may be offered that the configuration does not
+         contain; every STARTTLS command must be refused (no 220, no STARTTLS / second handshake callback).
+         Mirror image on clear-text sessions (STARTTLS never issued, refused with an argument, or a server
+         without TLS context): the offer is exactly the configured one until a HELO (after a HELO this server
+         offers nothing any more -- an old quirk the statement does not speak about: only "nothing appears" is
+         demanded then).
+
 Audit additions (round 5): the STARTTLS line + payload cut into segments at generated offsets (inside the
 verb, between CR and LF, every byte), the whole session prefix + STARTTLS + payload in ONE segment (also behind
 the end of a message body), other spellings of the STARTTLS line; mechanisms XOAUTH2 and EXTERNAL, a server
@@ -124,7 +134,12 @@ REQUIRED_HITS = ['tls-reply-count-compared', 'tls-first-reply-checked', 'encrypt
                  'starttls-line-segmented', 'whole-session-in-one-segment', 'starttls-offer-after-handshake-checked',
                  'server-without-tls-context', 'auth-validator-raises-checked', 'edge-envelope-identity-checked',
                  'client-post-tls-extensions-compared', 'relay-tls-session-compared',
-                 'relay-post-tls-extension-use-checked', 'relay-auth-credentials-compared']
+                 'relay-post-tls-extension-use-checked', 'relay-auth-credentials-compared',
+                 # STARTTLS offer over histories (seed C08f)
+                 'offer-history-ehlo-checked', 'offer-history-ehlo-after-helo-over-tls',
+                 'starttls-refused-in-history-checked', 'starttls-probe-after-helo-over-tls',
+                 'immediate-offer-history-checked', 'clear-offer-history-checked', 'clear-offer-history-after-helo',
+                 'handshake-callbacks-in-history-counted']
 SHARDS = {'quick': 8, 'thorough': 16}
 BUDGET = {'quick': 45, 'thorough': 700}
 EXHAUSTIVE = {'quick': False, 'thorough': False}
@@ -138,7 +153,9 @@ M_SRV_BUF = 'server/recv-buffer-survives-starttls'
 M_SRV_TXN = 'server/transaction-state-survives-starttls'
 M_SRV_EHLO = 'server/ehlo-identity-survives-starttls'
 M_SRV_OFFER = 'server/starttls-offered-after-handshake'
-M_SRV_TWICE = 'server/second-starttls-accepted'
+M_SRV_TWICE = 'server/second-starttls-accepted'                 # + '/after-HELO' | '/in-history' (offer family)
+M_SRV_APPEAR = 'server/extension-offered-but-not-configured'
+M_SRV_VANISH = 'server/configured-extension-not-offered'
 M_AUTH_CLEAR = 'auth/plaintext-mechanism-accepted-on-clear-session'
 M_AUTH_BARE = 'auth/bare-AUTH-ends-session'
 M_AUTH_B64 = 'auth/non-base64-characters-ignored'
@@ -456,13 +473,16 @@ def make_validators(box):
 
         def handle_mail(self, reply, sender, params):
             box['trace'].append({'cb': 'MAIL', 'args': [sender]})
+
+        def handle_tls(self):
+            box['trace'].append({'cb': 'TLSHANDSHAKE', 'args': []})
     return V
 
 
 class ServerSession(object):
     """One real server session on a socketpair; self.w is the harness peer."""
 
-    def __init__(self, mode, auth, target='server', verdicts=(), credcheck=None):
+    def __init__(self, mode, auth, target='server', verdicts=(), credcheck=None, max_size=None):
         a, b = gsocket.socketpair()
         self.w = Wire(b)
         self.target = target
@@ -492,7 +512,7 @@ class ServerSession(object):
             self.trace = self.box['trace']
             del RecSession.instances[:]
             edge = SmtpEdge(None, self.queue, validator_class=make_validators(self.box), auth=auth, context=ctx,
-                            tls_immediately=imm, session_class=RecSession)
+                            tls_immediately=imm, session_class=RecSession, max_size=max_size)
 
             def body():
                 try:
@@ -979,6 +999,48 @@ def client_cases():
             yield {'fam': 'client', 'payload': name, 'timing': 'during-handshake'}
 
 
+# ---------------------------------------------------------------- workload: offer over histories
+
+OFFER_STEPS_TLS = ['ehlo', 'helo', 'rset', 'noop', 'txn', 'rcpt-refused', 'unknown', 'auth-ok', 'auth-fail', 'starttls']
+OFFER_STEPS_CLEAR = ['ehlo', 'helo', 'rset', 'noop', 'txn', 'rcpt-refused', 'unknown', 'auth-ok', 'auth-fail',
+                     'starttls-arg']
+OFFER_MODES_TLS = ['starttls', 'immediate']
+OFFER_MODES_CLEAR = ['clear', 'clear-refused', 'notls']
+NOFFER = {'quick': 160, 'thorough': 2500}
+EDGE_MAX_SIZE = 123456
+
+
+def offer_cases(tier, rr):
+    def case(mode, steps, target='server'):
+        return {'fam': 'offer', 'mode': mode, 'steps': list(steps), 'target': target}
+    for mode in OFFER_MODES_TLS:
+        yield case(mode, [])
+        for a in OFFER_STEPS_TLS:
+            yield case(mode, [a])
+            for b in OFFER_STEPS_TLS:
+                yield case(mode, [a, b], 'edge' if (len(a) + len(b)) % 4 == 0 else 'server')
+        for seq in (['helo', 'ehlo'], ['helo', 'ehlo', 'starttls'], ['helo', 'rset', 'ehlo'], ['helo', 'txn', 'ehlo'],
+                    ['ehlo', 'helo', 'ehlo', 'helo', 'ehlo'], ['auth-ok', 'helo', 'ehlo'], ['helo', 'helo', 'ehlo']):
+            for target in ('server', 'edge'):
+                yield case(mode, seq, target)
+    for mode in OFFER_MODES_CLEAR:
+        yield case(mode, [])
+        for a in OFFER_STEPS_CLEAR:
+            yield case(mode, [a], 'edge' if len(a) % 2 else 'server')
+            for b in ('ehlo', 'helo', 'rset', 'txn', 'starttls-arg'):
+                yield case(mode, [a, b])
+        for seq in (['helo', 'ehlo'], ['helo', 'rset', 'ehlo'], ['rset', 'ehlo', 'rset', 'ehlo'], ['txn', 'ehlo', 'txn']):
+            yield case(mode, seq, 'edge')
+    for _ in range(NOFFER[tier]):
+        if rr.random() < 0.65:
+            mode, alpha = rr.choice(OFFER_MODES_TLS), OFFER_STEPS_TLS
+        else:
+            mode, alpha = rr.choice(OFFER_MODES_CLEAR), OFFER_STEPS_CLEAR
+        # hello commands are what moves the offer: weight them
+        pool = alpha + ['ehlo', 'helo', 'helo']
+        yield case(mode, [rr.choice(pool) for _ in range(rr.randrange(3, 6))], rr.choice(['server', 'server', 'edge']))
+
+
 # ---------------------------------------------------------------- generator
 
 def gen_cases(tier, seed, shard, nshards):
@@ -992,6 +1054,7 @@ def gen_cases(tier, seed, shard, nshards):
         else:
             c = random_auth(rr)
         cases.append(c)
+    cases.extend(offer_cases(tier, random.Random('c08-offer-%d' % seed)))
     for n, c in enumerate(cases):
         if n % nshards == shard:
             c['rs'] = (seed * 1000003 + n) & 0x7fffffff
@@ -2159,6 +2222,169 @@ def run_relay_case(case, R):
         R.sample({'case': case, 'outcome': outcome, 'reported': reported, 'commands_inside_tls': in_tls[:8]})
 
 
+# ---------------------------------------------------------------- run: offer over histories
+
+def run_offer_case(case, R):
+    mode, steps, target = case['mode'], list(case['steps']), case['target']
+    tls_mode = mode in OFFER_MODES_TLS
+    key = ('offer', mode, tuple(steps), target)
+    R.observe('offer-case', key)
+    R.observe('offer-history-shape', (mode, len(steps), 'helo' in steps, target))
+    if steps:
+        R.nontrivial(key)
+    smode = {'starttls': 'starttls', 'immediate': 'immediate', 'notls': 'notls'}.get(mode, 'starttls')
+    S = ServerSession(smode, AUTH_MECHS, target, verdicts=['235' if st == 'auth-ok' else '535' for st in steps
+                                                            if st.startswith('auth-')],
+                      max_size=EDGE_MAX_SIZE if target == 'edge' else None)
+    w = S.w
+    R.eval()
+
+    def abort(why):
+        try:
+            S.finish()
+        except Stall:
+            pass
+        R.inconclusive('offer set-up: ' + why)
+
+    configured = set(['8BITMIME', 'PIPELINING', 'ENHANCEDSTATUSCODES', 'SMTPUTF8',
+                      'AUTH ' + ' '.join(m.decode() for m in AUTH_MECHS)])
+    if target == 'edge':
+        configured.add('SIZE %d' % EDGE_MAX_SIZE)
+    if mode == 'immediate' and not w.handshake():
+        return abort('immediate handshake failed')
+    if code(w.reply()) != '220':
+        return abort('no banner')
+    log = []            # [step, command, reply]
+    ehlos = []          # [index in log, offered lines, helo seen before, encrypted]
+    state = {'helo': False, 'enc': mode == 'immediate', 'stop': None}
+
+    def say(step, line):
+        r = w.cmd(line)
+        log.append([step, line, r])
+        if line.upper().startswith(b'EHLO') and code(r) == '250':
+            ehlos.append([len(log) - 1, [ln.upper() for ln in r[1][1:]], state['helo'], state['enc']])
+        if line.upper().startswith(b'HELO') and code(r) == '250':
+            state['helo'] = True
+        return r
+
+    if mode == 'starttls':
+        if code(say('setup', b'EHLO pre.test')) != '250' or code(say('setup', b'STARTTLS')) != '220' or \
+                not w.handshake():
+            return abort('STARTTLS set-up failed')
+        state['enc'] = True
+    elif mode == 'clear-refused':
+        # STARTTLS refused twice: before EHLO (503), then with an argument (501); the session stays clear
+        r1 = say('setup', b'STARTTLS')
+        say('setup', b'EHLO pre.test')
+        r2 = say('setup', b'STARTTLS right now')
+        if not (is_err(r1) and is_err(r2)):
+            return abort('the refused-STARTTLS set-up was not refused: %r %r' % (r1, r2))
+    starttls_probes = []
+    for n, st in enumerate(steps + ['ehlo'] + (['starttls'] if tls_mode else [])):
+        final = n >= len(steps)
+        if st == 'ehlo':
+            r = say(st, b'EHLO h%d.test' % n)
+        elif st == 'helo':
+            r = say(st, b'HELO h%d.test' % n)
+        elif st == 'rset':
+            r = say(st, b'RSET')
+        elif st == 'noop':
+            r = say(st, b'NOOP')
+        elif st == 'unknown':
+            r = say(st, b'XFOO bar')
+        elif st == 'rcpt-refused':
+            r = say(st, b'RCPT TO:<nomail@x>')
+        elif st == 'txn':
+            r = say(st, b'MAIL FROM:<h@x>')
+            if code(r) == '250' and code(say(st, b'RCPT TO:<hr@x>')) == '250' and code(say(st, b'DATA')) == '354':
+                r = say(st, b'Subject: h\r\n\r\nh body\r\n.')
+        elif st in ('auth-ok', 'auth-fail'):
+            r = say(st, b'AUTH EXTERNAL ' + b64(b'hist-user'))      # not a plain-text mechanism: allowed in clear too
+            if code(r) == '334':
+                r = say(st, b'*')
+        elif st == 'starttls-arg':
+            r = say(st, b'STARTTLS please')
+        elif st == 'starttls':
+            r = say(st, b'STARTTLS')
+            starttls_probes.append([len(log) - 1, r, state['helo'], final])
+            if r is not None and not is_err(r):
+                state['stop'] = 'STARTTLS accepted inside TLS'
+                break              # the server now waits for another handshake
+        else:
+            raise ValueError(st)
+        if r is None:
+            state['stop'] = 'connection ended at step %s' % st
+            break
+    if state['stop'] is None:
+        say('end', b'QUIT')
+    end = S.finish()
+    trace = S.trace
+    wit = {'case': case, 'log': log[:40], 'ehlo_offers': ehlos, 'configured_offer': sorted(configured),
+           'callbacks': [[sig(e), e.get('enc')] for e in trace][:60], 'end': end, 'stopped': state['stop']}
+    desc = '%s session (%s), history %s' % (mode, target, '/'.join(steps) or '-')
+    if state['stop'] and not state['stop'].startswith('STARTTLS accepted'):
+        # a history step ended the session: nothing of this family to judge (survival is judged elsewhere)
+        R.observe('offer-history-ended-early', (mode, state['stop'][:40]))
+    seen = set()
+
+    def V(mechanism, what):
+        if mechanism not in seen:
+            seen.add(mechanism)
+            R.violation(mechanism, desc + ': ' + what, wit)
+
+    # ---- every EHLO reply
+    for idx, lines, after_helo, enc in ehlos:
+        if log[idx][0] == 'setup' and not enc and mode == 'starttls':
+            continue                       # the clear-text EHLO before the upgrade
+        names = set(ln.split()[0] for ln in lines if ln.split())
+        suffix = '/after-HELO' if after_helo else ('/in-history' if log[idx][0] not in ('setup',) and
+                                                   any(l_[0] not in ('setup',) for l_ in log[:idx]) else '')
+        if enc:
+            R.hit('offer-history-ehlo-checked')
+            if mode == 'immediate':
+                R.hit('immediate-offer-history-checked')
+            if after_helo:
+                R.hit('offer-history-ehlo-after-helo-over-tls')
+            if 'STARTTLS' in names:
+                V(M_SRV_OFFER + suffix, 'the EHLO reply to %r over TLS lists STARTTLS: %s' % (log[idx][1], lines))
+            want = set(configured)
+        else:
+            R.hit('clear-offer-history-checked')
+            if after_helo:
+                R.hit('clear-offer-history-after-helo')
+            want = set(configured)
+            if mode != 'notls':
+                want.add('STARTTLS')
+        extra = sorted(set(lines) - want - (set(['STARTTLS']) if enc else set()))
+        if extra:
+            V(M_SRV_APPEAR + suffix, 'the EHLO reply to %r lists %s, the configuration is %s'
+              % (log[idx][1], extra, sorted(want)))
+        missing = sorted(want - set(lines))
+        if missing:
+            if after_helo:
+                R.observe('offer-shrunk-after-helo', (mode, tuple(missing)))   # old quirk, outside the statement
+            else:
+                V(M_SRV_VANISH + suffix, 'the EHLO reply to %r does not list %s although no HELO was sent; configured: %s'
+                  % (log[idx][1], missing, sorted(want)))
+    # ---- every STARTTLS command on an encrypted session
+    for idx, r, after_helo, final in starttls_probes:
+        R.hit('starttls-refused-in-history-checked')
+        if after_helo:
+            R.hit('starttls-probe-after-helo-over-tls')
+        if r is not None and not is_err(r):
+            V(M_SRV_TWICE + ('/after-HELO' if after_helo else '/in-history'),
+              'STARTTLS over TLS (command %d of the history) answered %r' % (idx, r))
+    if tls_mode:
+        R.hit('handshake-callbacks-in-history-counted')
+        hs = [e for e in trace if e['cb'] == 'TLSHANDSHAKE']
+        st_cb = [e for e in trace if e['cb'] == 'STARTTLS' and e.get('enc')]
+        if len(hs) > 1 or st_cb:
+            V(M_SRV_TWICE + ('/after-HELO' if state['helo'] else '/in-history'),
+              '%d TLS handshake callbacks, %d STARTTLS callbacks with encrypted=True' % (len(hs), len(st_cb)))
+    if not seen and steps and case.get('rs', 0) % 23 == 0:
+        R.sample({'case': case, 'ehlo_offers': ehlos, 'starttls_probes': [[i, r] for i, r, _, _ in starttls_probes]})
+
+
 # ---------------------------------------------------------------- dispatch
 
 def run_case(case, R):
@@ -2169,6 +2395,8 @@ def run_case(case, R):
             run_auth_case(case, R)
         elif case['fam'] == 'relay':
             run_relay_case(case, R)
+        elif case['fam'] == 'offer':
+            run_offer_case(case, R)
         else:
             run_client_case(case, R)
     except Stall as e:
